@@ -68,3 +68,110 @@ def tiling_lemmas():
                                                          z3.And(lo(N, r + 1, P) - lo(N, r, P) >= N / P,
                                                                 lo(N, r + 1, P) - lo(N, r, P) <= N / P + 1))),
     ]
+
+
+# ------------------------------------------------------------------------ get_unique_indexes (C03)
+def get_unique_indexes_contract():
+    """Keys of `result` are the distinct values of L, each once (in `result.keys()`), result[v] is AN index holding v,
+    match[v] is the position of v among the keys.  (Which index, and the order of the keys, are not promised.)"""
+    from pyvc.engine import LoopSpec
+    from pyvc.values import Label, VTuple, VRef, HDict
+
+    def dict_of(S, v):
+        return S.st.heap[v.addr]
+
+    def inv(S, st):
+        i = S.i(S.var("__i"))
+        L = S.seq(S.var("L"))
+        d = dict_of(S, S.var("result"))
+        keys = S.seq(d.keys)
+        v = z3.Const("v!gu", Label)
+        k, q, q2 = z3.Ints("k!gu q!gu q2!gu")
+        return [
+            ("every key is a value seen so far, and result[key] points at it",
+             z3.ForAll([v], z3.Implies(d.has(v), z3.And(0 <= d.val(v).t, d.val(v).t < i, L.get(d.val(v).t).t == v)))),
+            ("every value seen so far is a key", z3.ForAll([k], z3.Implies(z3.And(0 <= k, k < i), d.has(L.get(k).t)))),
+            ("the key list holds keys only, without repetition",
+             z3.And(keys.len >= 0, z3.ForAll([q], z3.Implies(z3.And(0 <= q, q < keys.len), d.has(keys.get(q).t))),
+                    z3.ForAll([q, q2], z3.Implies(z3.And(0 <= q, q < q2, q2 < keys.len), keys.get(q).t != keys.get(q2).t)))),
+            ("every key is in the key list (ghost witness: the key's slot)",
+             z3.ForAll([v], z3.Implies(d.has(v), z3.And(0 <= slot(S)(v), slot(S)(v) < keys.len, keys.get(slot(S)(v)).t == v)))),
+        ]
+
+    GT = T("ghostfn", Label, z3.IntSort())
+
+    def slot(S):
+        return S.var("__slot").obj
+
+    def setup(eng, st, args):
+        st.env["__slot"] = eng.fresh(GT, "SLOT", st)
+
+    def on_insert(S, st):
+        """ghost update after `result[val] = i`: the new key sits in the last slot of the key list"""
+        from pyvc.values import VConc
+        d = dict_of(S, S.var("result"))
+        keys = S.seq(d.keys)
+        newkey = S.var("val").t
+        old = S.var("__slot").obj
+        last = keys.len - 1
+        kg, kl = keys.get, keys.len
+        valid_old = z3.And(0 <= old(newkey), old(newkey) < kl, kg(old(newkey)).t == newkey)
+        g = VConc("ghostfn", lambda q, old=old, newkey=newkey, last=last: z3.If(z3.And(q == newkey, z3.Not(valid_old)), last, old(q)))
+        g.gtype = GT
+        st.env["__slot"] = g
+
+    def ensures(S, a, res):
+        if not (isinstance(res, VTuple) and len(res.items) == 2):
+            raise Unsupported("get_unique_indexes no longer returns a pair")
+        L = S.seq(a["L"])
+        d, m = dict_of(S, res.items[0]), dict_of(S, res.items[1])
+        keys = S.seq(d.keys)
+        v = z3.Const("v!gu", Label)
+        k, q, q2 = z3.Ints("k!gu q!gu q2!gu")
+        return [
+            ("every element of L is a key of result", z3.ForAll([k], z3.Implies(z3.And(0 <= k, k < L.len), d.has(L.get(k).t)))),
+            ("result[v] is an index of L holding v", z3.ForAll([v], z3.Implies(d.has(v), z3.And(0 <= d.val(v).t, d.val(v).t < L.len, L.get(d.val(v).t).t == v)))),
+            ("keys are pairwise distinct", z3.ForAll([q, q2], z3.Implies(z3.And(0 <= q, q < q2, q2 < keys.len), keys.get(q).t != keys.get(q2).t))),
+            ("match[v] is the position of v among the keys, for every key",
+             z3.ForAll([q], z3.Implies(z3.And(0 <= q, q < keys.len), z3.And(m.has(keys.get(q).t), m.val(keys.get(q).t).t == q)))),
+            ("match is defined exactly on the keys", z3.ForAll([v], m.has(v) == d.has(v))),
+        ]
+
+    ls = LoopSpec(inv)
+    ls.ghost = ["__slot"]
+    return Contract("get_unique_indexes", {"L": T.list(T.label)}, ensures=ensures, raises=lambda S, a, e: z3.BoolVal(False),
+                    loops={0: ls}, setup=setup, hooks={"result[]": on_insert})
+
+
+def get_match_indexes_contract():
+    """result[k] is an index of `a` holding b[k], for every k (requires: every element of b occurs in a)."""
+    from pyvc.engine import LoopSpec
+    from pyvc.values import Label
+    W = z3.Function("W.occ", z3.IntSort(), z3.IntSort())
+
+    def requires(S, a):
+        A, B = S.seq(a["a"]), S.seq(a["b"])
+        k = z3.Int("k!rq")
+        return [("every element of b occurs in a", z3.ForAll([k], z3.Implies(z3.And(0 <= k, k < B.len), z3.And(0 <= W(k), W(k) < A.len, A.get(W(k)).t == B.get(k).t))))]
+
+    def inv(S, st):
+        i = S.i(S.var("__i"))
+        A = S.seq(S.var("a"))
+        d = S.st.heap[S.var("result").addr]
+        bb = S.st.heap[S.var("bb").addr]
+        v = z3.Const("v!gm", Label)
+        k = z3.Int("k!gm")
+        return [("result[key] points at an occurrence of key among the first i entries",
+                 z3.ForAll([v], z3.Implies(d.has(v), z3.And(0 <= d.val(v).t, d.val(v).t < i, A.get(d.val(v).t).t == v)))),
+                ("every wanted value among the first i entries has an index", z3.ForAll([k], z3.Implies(z3.And(0 <= k, k < i, bb.has(A.get(k).t)), d.has(A.get(k).t))))]
+
+    def ensures(S, a, res):
+        A, B = S.seq(a["a"]), S.seq(a["b"])
+        R = S.seq(res)
+        k = z3.Int("k!en")
+        return [("one index per element of b, each pointing at an equal element of a",
+                 z3.And(R.len == B.len, z3.ForAll([k], z3.Implies(z3.And(0 <= k, k < B.len), z3.And(
+                     0 <= R.get(k).t, R.get(k).t < A.len, A.get(R.get(k).t).t == B.get(k).t)))))]
+
+    return Contract("get_match_indexes", {"a": T.list(T.label), "b": T.list(T.label)}, requires=requires, ensures=ensures,
+                    raises=lambda S, a, e: z3.BoolVal(False), loops={0: LoopSpec(inv)})
